@@ -567,7 +567,8 @@ def bindings(cls: str, tier: str) -> list[tuple[dict, int]]:
         combos = [(0, 1), (0, 2), (1, 1), (1, 2), (1, 3), (2, 3)] + ([(2, 2), (0, 3), (2, 4)] if th else [])
         return [({"expression": 0, "min": a, "max": b}, b + 2) for a, b in combos]
     if cls == "PeekSlice":
-        combos = [(None, None), (0, 1), (1, None), (None, -1), (-2, None)] + ([(1, 2), (0, 0)] if th else [])
+        # a bound of 0 is an ordinary index: `x or ""` idioms drop it
+        combos = [(None, None), (0, 1), (1, None), (None, -1), (-2, None), (None, 0), (1, 0)] + ([(1, 2), (0, 0)] if th else [])
         return [({"start": a, "stop": b, "tag": None}, U) for a, b in combos]
     if cls in ("Peek", "Pop", "Drop", "PeekAll", "PopAll"):
         return [({"tag": None}, U)]
@@ -685,13 +686,25 @@ def delegation_checks(repo: Repo, rep: OpReport, rel: str, cls: str) -> str | No
         raise AnalysisError(f"{construct}.__init__: no operand parameter")
     counts = {"number": "number", "min_": "min", "max_": "max", "min": "min", "max": "max", "num": "number"}
     nz = terms.Normaliser(f"{construct}.__init__", {pnames[0], f"self.{pnames[0]}"}, {k: v for k, v in counts.items() if k in pnames or k in ("number", "min", "max")})
-    got = nz.term(assign.value)
-    ok = got == want
-    what = (
-        f"self.{a} is the unrolled form {terms.term_str(want)}" if ok
-        else f"self.{a} is built as {terms.term_str(got)} where the unrolled form {terms.term_str(want)} is specified"
-    )
-    rep.oblige({"C01", "C03", "C04"}, "UNROLLED", construct, what, ok, Finding("UNROLLED", construct, what if not ok else "", f"{cls}: {what}", {"built": terms.term_str(got), "specified": terms.term_str(want)}))
+    try:
+        got = nz.term(assign.value)
+    except AnalysisError as err:
+        # written with a helper or a loop: no symbolic normal form; the concrete evaluation below decides bounds 0..3
+        got = None
+        rep.oblige({"C01", "C03", "C04"}, "UNROLLED", construct, f"no symbolic normal form ({str(err).split(': ', 1)[-1][:90]}); decided on concrete bounds below", True)
+    if got is not None:
+        ok = got == want
+        what = (
+            f"self.{a} is the unrolled form {terms.term_str(want)}" if ok
+            else f"self.{a} is built as {terms.term_str(got)} where the unrolled form {terms.term_str(want)} is specified"
+        )
+        rep.oblige({"C01", "C03", "C04"}, "UNROLLED", construct, what, ok, Finding("UNROLLED", construct, what if not ok else "", f"{cls}: {what}", {"built": terms.term_str(got), "specified": terms.term_str(want)}))
+    from .unrollsem import check_constructor
+
+    n, bad = check_constructor(repo, f"{construct}.__init__", cls, a)
+    sig = f"self.{a} is not the unrolled form pest specifies"
+    rep.oblige({"C01", "C03", "C04"}, "UNROLLED", construct, f"for every bound 0..3 ({n} instances) __init__ builds exactly the flat unrolled form" if not bad else sig, not bad,
+               Finding("UNROLLED", construct, sig, f"{cls}: {bad[0] if bad else ''} ({len(bad)} of {n} bound instances)", {"witness": bad[0] if bad else ""}))
     rep.count("delegating_operators")
     return a
 
